@@ -27,11 +27,20 @@ class StaticCase:
         self.nv = int(rng.integers(5, 10))
         vmax = float(rng.uniform(300, 900))
         self.vol = numpy.linspace(vmax, vmax * rng.uniform(0.72, 0.8), self.nv)
+        # the volumes of INPUT01 in file order: descending (as shipped), ascending or unsorted; the energies are quadratic in the
+        # Eulerian strain referred to the FIRST volume of the file, which is what the command's fit refers to
+        self.order = str(rng.choice(["descending", "descending", "ascending", "unsorted"]))
+        if self.order == "ascending":
+            self.vol = self.vol[::-1].copy()
+        elif self.order == "unsorted":
+            self.vol = self.vol[rng.permutation(self.nv)]
         self.v0 = self.vol[0]
         k0 = rng.uniform(150, 250) / G
         veq_f = rng.uniform(0.005, 0.02)
         # E(f) = e0 + c (f - f0)^2 : exactly quadratic in the Eulerian strain referred to the first volume
-        self.e0, self.c2, self.f0 = -rng.uniform(50, 300), 4.5 * k0 * self.v0, veq_f
+        # (the same physical equation of state whatever the file order: equilibrium just below the largest volume, bulk modulus k0 there)
+        veq = float(self.vol.max()) / (1.0 + 2.0 * veq_f) ** 1.5
+        self.e0, self.c2, self.f0 = -rng.uniform(50, 300), 4.5 * k0 * veq * (veq / self.v0) ** (4.0 / 3.0), float(eulerian(self.v0, veq))
         self.mass = float(rng.uniform(40, 300))
         self.system = system
         e = exports[system or "triclinic"]
@@ -44,7 +53,7 @@ class StaticCase:
         self.polys = {k: (c0[k], 8.0 * c1[k], c2[k]) for k in KEYS21}
         van = set(e["vanishing"])
         self.nonvan = [KEYS21[n - 1] for n in range(1, 22) if n not in van]
-        self.svol = numpy.linspace(self.vol[0] * rng.uniform(0.98, 1.02), self.vol[-1] * rng.uniform(0.98, 1.02), int(rng.integers(5, 9)))
+        self.svol = numpy.linspace(self.vol.max() * rng.uniform(0.98, 1.02), self.vol.min() * rng.uniform(0.98, 1.02), int(rng.integers(5, 9)))
         self.sv0 = self.svol[0]
 
     def energy(self, v):
@@ -126,7 +135,7 @@ def main(ctx, replay=None):
                 args += ["-s", system]
             pmin, dp = 0.0, 0.0
             if mode == "pressure":
-                pmax_ok = float(sc.pressure(sc.vol[-1]) * G) * 0.8
+                pmax_ok = float(sc.pressure(sc.vol.min()) * G) * 0.8
                 pmin = round(float(rng.uniform(0.0, 5.0)), 3)
                 dp = round((pmax_ok - pmin) / (ntv - 1), 4)
                 if sample > 1:
@@ -142,7 +151,7 @@ def main(ctx, replay=None):
             if sample > 0:
                 # as a user types it: a decimal number that is `sample` times delta_p (the floating-point quotient may fall on either side)
                 args += ["--delta-p-sample", repr(round(sample * (dp if mode == "pressure" else 1.0), 6))]
-            case = {"mode": mode, "table": has_table, "system": system, "cellmass": with_mass, "ntv": ntv, "sample": sample}
+            case = {"mode": mode, "table": has_table, "system": system, "cellmass": with_mass, "ntv": ntv, "sample": sample, "volume_order": sc.order}
             ctx.count(case, nontrivial=has_table or mode != "none")
             sig = {"mode": mode, "table": has_table}
             r = CliRunner().invoke(static_main, args)
